@@ -14,6 +14,27 @@ CHECKS = {
              'reads) and of GetObjectTask alone.',
         note=_NOTE + '; identity-content data; legacy ranged download and process-pool facade need real threads/'
              'processes and are outside', technique=_T),
+    'C03': dict(
+        text='Every transfer type/mode with ONE fault at a symbolic index over all environment calls and symbolic phase '
+             '(fault enumeration done by the solver, not by a loop): never success after a delivered fault, raised '
+             'exception is an injected one, success implies the complete effect; retry budget with symbolic fault '
+             'positions.  Bound: single request and 2-part shapes, serial schedule; fault pairs in thorough tier.',
+        note=_NOTE + '; faults land only on environment calls', technique=_T),
+    'C05': dict(
+        text='Multipart upload/copy life cycle against a fake multipart table under one symbolic fault (before/after '
+             'effect), incl. the legacy uploader; serial schedule.',
+        note=_NOTE + '; abort-vs-in-flight ordering only for serial/nested schedules', technique=_T),
+    'C06': dict(
+        text='Crash-point invariant evaluated after every FS operation of an in-memory file system, one symbolic fault, '
+             'destination pre-existing or not; TransferManager and legacy S3Transfer (single + ranged).',
+        note=_NOTE + '; os.rename atomicity trusted; real OS not involved', technique=_T),
+    'C08': dict(
+        text='Recording subscribers with a logical clock in every outcome of the single-fault family; provide_size.',
+        note=_NOTE + '; serial schedule', technique=_T),
+    'C09': dict(
+        text='Unbounded inductive step on ReadFileChunk + AggregatedProgressCallback (any number of rewinds), plus '
+             'bounded e2e sums for uploads/downloads/copies with symbolic read sizes, re-sends and stream faults.',
+        note=_NOTE + '; A3 botocore body protocol assumed', technique=_T),
     'C12': dict(
         text='Inductive step on the real SlidingWindowSemaphore from an arbitrary invariant-satisfying state (unbounded '
              'counters) against a reference model, bounded API histories, TaskSemaphore conservation, quiescence of '
